@@ -140,14 +140,24 @@ def prefetch_to_device(iterator, size, devices=None):
   def _prefetch(xs):
     return jax.device_put_sharded(list(xs), devices)
 
+  error = []  # an exception raised while prefetching, re-raised in order.
+
   def enqueue(n):  # Enqueues *up to* `n` elements from the iterator.
-    for data in itertools.islice(iterator, n):
-      queue.append(jax.tree_util.tree_map(_prefetch, data))
+    if error:
+      return
+    try:
+      for data in itertools.islice(iterator, n):
+        queue.append(jax.tree_util.tree_map(_prefetch, data))
+    except Exception as e:  # pylint: disable=broad-except
+      # Deliver the items that were fetched before the failure first.
+      error.append(e)
 
   enqueue(size)  # Fill up the buffer.
   while queue:
     yield queue.popleft()
     enqueue(1)
+  if error:
+    raise error[0]
 
 
 def _scan_nd(body_fn, init, xs, n=1, unroll=(1,)):
